@@ -293,9 +293,10 @@ class Ops:
         if isinstance(a, Inf) or isinstance(b, Inf):
             return self.inf_cmp(op, a, b)
         if not isinstance(a, SV) and not isinstance(b, SV):
-            if isinstance(a, (int, Fraction, bool, str, tuple, list)) and isinstance(b, (int, Fraction, bool, str, tuple, list)):
-                return {'Lt': a < b, 'LtE': a <= b, 'Gt': a > b, 'GtE': a >= b}[op] \
-                    if not isinstance(a, (tuple, list)) else self.seq_cmp(op, a, b)
+            if isinstance(a, (tuple, list)) and isinstance(b, (tuple, list)):
+                return self.seq_cmp(op, a, b)
+            if isinstance(a, (int, Fraction, bool, str)) and isinstance(b, (int, Fraction, bool, str)):
+                return {'Lt': a < b, 'LtE': a <= b, 'Gt': a > b, 'GtE': a >= b}[op]
             raise Unsupported(f'compare {op} {a!r} {b!r}')
         real = is_real(a) or is_real(b)
         ta, tb = term(a, real), term(b, real)
@@ -303,7 +304,15 @@ class Ops:
         return mk(t)
 
     def seq_cmp(self, op, a, b):
-        raise Unsupported('ordering of sequences')
+        """lexicographic order of tuples/lists with symbolic components"""
+        strict = op in ('Lt', 'Gt')
+        lt = 'Lt' if op in ('Lt', 'LtE') else 'Gt'
+        res = (len(a) < len(b)) if op in ('Lt', 'LtE') else (len(a) > len(b))
+        if len(a) == len(b):
+            res = not strict
+        for x, y in reversed(list(zip(a, b))):
+            res = self.lor(self.compare(lt, x, y), self.land(self.eq(x, y), res))
+        return res
 
     def inf_cmp(self, op, a, b):
         if isinstance(a, Inf) and isinstance(b, Inf):
